@@ -126,14 +126,13 @@ func (s *store) Transaction(options keyvalue.TransactionOptions) (keyvalue.Trans
 }
 
 func (t *transaction) prepOp() (keyvalue.OpID, error) {
-	select {
-	case <-t.ctx.Done():
-		return 0, t.ctx.Err()
-	default:
-	}
-
 	op := t.op
 	t.op++
+	select {
+	case <-t.ctx.Done():
+		return op, t.ctx.Err() // calls after Abort still get their own operation id
+	default:
+	}
 	return op, nil
 }
 
